@@ -181,6 +181,6 @@ int main(int argc, char **argv)
     if (m == "tglf" && argc >= 5) return tglfMode(atoi(argv[2]), strtoull(argv[3], 0, 10), argv[4]);
     if (m == "peel" && argc >= 4) return peelMode(argv[2], argv[3]);
     if (m == "planar" && argc >= 4) return planarMode(argv[2], argv[3]);
-    if (m == "hola" && argc >= 4) return holaMode(argv[2], argv[3], argc > 4 ? atol(argv[4]) : 0);
+    if (m == "hola" && argc >= 4) return holaMode(argv[2], argv[3], argc > 4 ? atol(argv[4]) : 0, argc > 5 ? atol(argv[5]) : 0);
     return 2;
 }
